@@ -62,7 +62,7 @@ def run_cases(cases):
         fp = cs.get('fp')
         code = cs['code']
         x87 = cs.get('x87')
-        buf += bytes([(8 if x87 else 0) | (1 if fp else 0) | (4 if cs.get('low') == 'top' else (2 if cs.get('low') else 0)), len(code)]) + code.ljust(16, b'\x90')[:16]
+        buf += bytes([(16 if cs.get('cs16') else 0) | (8 if x87 else 0) | (1 if fp else 0) | (4 if cs.get('low') == 'top' else (2 if cs.get('low') else 0)), len(code)]) + code.ljust(16, b'\x90')[:16]
         buf += struct.pack('<8I', *[x & 0xffffffff for x in cs['regs']])
         buf += struct.pack('<I', cs['eflags'])
         buf += cs['hot']
